@@ -4,7 +4,7 @@ from __future__ import annotations
 import ast
 
 from . import absint as A
-from .core import AnalysisError, src
+from .core import AnalysisError, clone_ast, src
 
 _CACHE = {}
 
@@ -1188,9 +1188,9 @@ def inline_locals(fnode, expr, depth=6):
     class T(ast.NodeTransformer):
         def visit_Name(self, node):
             if isinstance(node.ctx, ast.Load) and node.id in single:
-                return copy.deepcopy(single[node.id])
+                return clone_ast(single[node.id])
             return node
-    out = copy.deepcopy(expr)
+    out = clone_ast(expr)
     for _ in range(depth):
         before = ast.dump(out)
         out = T().visit(out)
